@@ -55,12 +55,18 @@ func nameClass(dagFile string) string {
 	return "plain"
 }
 
+// mkStatus builds a status whose write id is recorded three times — early in
+// the encoded line (Pid), at both ends of the bulk (Log) and at the very end
+// (Params) — so that a line spliced from two different writes is recognisable.
 func mkStatus(dagFile, reqID string, start time.Time, id, size int) *model.Status {
+	tag := fmt.Sprintf("<%d>", id)
 	return &model.Status{RequestID: reqID, Name: strings.TrimSuffix(filepath.Base(dagFile), ".yaml"),
-		Status: scheduler.StatusSuccess, StatusText: "finished", StartedAt: start.Format(time.RFC3339),
-		Params: fmt.Sprintf("w%d", id), Log: strings.Repeat("é", size/2)}
+		Status: scheduler.StatusSuccess, StatusText: "finished", PID: model.PID(id), StartedAt: start.Format(time.RFC3339),
+		Params: fmt.Sprintf("w%d", id), Log: tag + strings.Repeat("é", size/2) + tag}
 }
 
+// writeID returns the id of the write a status came from, -1 if it carries
+// none, -2 if its copies of the id disagree (a line spliced from two writes).
 func writeID(st *model.Status) int {
 	var id int
 	if st == nil {
@@ -68,6 +74,10 @@ func writeID(st *model.Status) int {
 	}
 	if _, err := fmt.Sscanf(st.Params, "w%d", &id); err != nil {
 		return -1
+	}
+	tag := fmt.Sprintf("<%d>", id)
+	if int(st.PID) != id || !strings.HasPrefix(st.Log, tag) || !strings.HasSuffix(st.Log, tag) {
+		return -2
 	}
 	return id
 }
